@@ -798,7 +798,7 @@ def ylogydu(y, u):
     np.array len(n)
     """
     mask = np.atleast_1d(y) != 0.0
-    out = np.zeros_like(u)
+    out = np.zeros(np.shape(u), dtype=float)
     out[mask] = y[mask] * np.log(y[mask] / u[mask])
     return out
 
